@@ -230,6 +230,9 @@ func runC13(c *fw.Case) {
 		if verr := mp.Validate(); verr != nil {
 			c.ViolateD("C13/stored-minter-params-invalid", map[string]string{"msg": label}, "after %s the stored minter parameters fail validation: %v", label, verr)
 		}
+		if v := minterRulesViolation(mp); v != "" {
+			c.ViolateD("C13/stored-minter-params-break-rules", map[string]string{"msg": label, "rule": v}, "after %s the stored minter parameters break a validation rule: %s", label, v)
+		}
 		st := n.App.CfeminterKeeper.GetMinterState(ctx)
 		if !mp.ContainsMinter(st.SequenceId) {
 			c.ViolateD("C13/current-minter-missing", map[string]string{"msg": label}, "after %s the stored minter parameters do not contain the current period %d", label, st.SequenceId)
@@ -238,7 +241,13 @@ func runC13(c *fw.Case) {
 		if verr := dp.Validate(); verr != nil {
 			c.ViolateD("C13/stored-distributor-params-invalid", map[string]string{"msg": label}, "after %s the stored distributor parameters fail validation: %v", label, verr)
 		}
+		if v := distRulesViolation(dp.SubDistributors); v != "" {
+			c.ViolateD("C13/stored-distributor-params-break-rules", map[string]string{"msg": label, "rule": v}, "after %s the stored distributor parameters break a validation rule: %s", label, v)
+		}
 		vp := n.App.CfevestingKeeper.GetParams(ctx)
+		if vp.Denom == "" || sdk.ValidateDenom(vp.Denom) != nil {
+			c.ViolateD("C13/stored-vesting-params-break-rules", map[string]string{"msg": label}, "after %s the stored vesting denom %q is not a valid denomination", label, vp.Denom)
+		}
 		if verr := vp.Validate(); verr != nil {
 			c.ViolateD("C13/stored-vesting-params-invalid", map[string]string{"msg": label}, "after %s the stored vesting parameters fail validation: %v", label, verr)
 		}
@@ -308,7 +317,7 @@ func c13Message(c *fw.Case, n *chain.Node, dk *distEnv, mc gen.MinterConfig, aut
 		var minters []*minttypes.Minter
 		start := cur.StartTime
 		label := ""
-		switch r.Intn(7) {
+		switch r.Intn(8) {
 		case 0: // brand-new valid configuration (may or may not contain the current period)
 			nc := gen.Minters(r, "uc4e", 30)
 			minters, start = nc.Params.Minters, nc.Params.StartTime
@@ -382,6 +391,32 @@ func c13Message(c *fw.Case, n *chain.Node, dk *distEnv, mc gen.MinterConfig, aut
 				minters = nil
 				label = "structurally-invalid"
 			}
+		case 6: // two or three periods, the first of which ends at or before the start time
+			nc := gen.Minters(r, "uc4e", 30)
+			k := 2 + r.Intn(2)
+			for len(nc.Sorted) < k {
+				nc = gen.Minters(r, "uc4e", 30)
+			}
+			start = now.Add(-time.Duration(r.Intn(100)) * time.Hour)
+			for i := 0; i < k; i++ {
+				cp := *nc.Sorted[i]
+				cp.SequenceId = uint32(i + 1)
+				switch {
+				case i == k-1:
+					cp.EndTime = nil
+					if _, lin := cp.Config.GetCachedValue().(*minttypes.LinearMinting); lin {
+						cp.Config, _ = codectypes.NewAnyWithValue(&minttypes.NoMinting{})
+					}
+				case i == 0:
+					t := start.Add(-time.Duration(r.Intn(3)) * time.Hour) // == start or before it
+					cp.EndTime = &t
+				default:
+					t := now.Add(time.Duration(1+r.Intn(500)) * time.Hour)
+					cp.EndTime = &t
+				}
+				minters = append(minters, &cp)
+			}
+			label = "first-end-not-after-start"
 		default: // structurally invalid
 			minters = []*minttypes.Minter{nil}
 			if r.Intn(2) == 0 {
